@@ -472,7 +472,54 @@ def run_empty_selection(chk, spec):
 			return
 
 
-RUNNERS.update({"empty_selection": run_empty_selection, "table_2d": run_table_2d, "rows_held": run_rows_held, "compare_history": run_compare_history, "bigmask": run_bigmask})
+def run_none_scalar(chk, spec):
+	"""== and != against the scalar None are Python's own comparison elementwise (x != None is True for every value), False where the element is None"""
+	vals = spec["values"]
+	v = Vector(list(vals))
+	chk.judged("compare", ("none-scalar", spec["opname"], kind_of(v).__name__ if kind_of(v) else None, len(vals)))
+	op = CMP_OPS[spec["opname"]]
+	import warnings
+	with warnings.catch_warnings():
+		warnings.simplefilter("ignore")
+		o = call(lambda: op(v, None) if spec["form"] == "vs" else op(None, v))
+	exp = [False if x is None else bool(op(x, None)) for x in vals]
+	if not o.ok:
+		chk.fail("comparison is computed elementwise by Python's comparison (False at None)", f"compare/raises/{spec['opname']}/none-scalar/{type(o.exc).__name__}", f"Vector({vals!r}) {spec['opname']} None raised {o!r}; expected {exp}")
+		return
+	got = list(o.value._underlying) if isinstance(o.value, Vector) else o.value
+	if got != exp:
+		chk.fail("comparison is computed elementwise by Python's comparison (False at None)", f"compare/value/{spec['opname']}/none-scalar", f"Vector({vals!r}) {spec['opname']} None gave {got!r}, Python elementwise gives {exp}")
+		return
+	if spec["opname"] == "ne":
+		sel = call(lambda: v[o.value])
+		if sel.ok and not M.same_list(list(sel.value._underlying), [x for x in vals if x is not None]):
+			chk.fail("v[mask] keeps exactly the positions where the mask is True", "mask/none-scalar-mask/wrong-elements", f"Vector({vals!r})[v != None] = {list(sel.value)!r}")
+
+
+def run_label_select(chk, spec):
+	"""columns whose labels are not strings are selected by the sanitised spelling of THEIR label, whatever was sanitised earlier in the process"""
+	lab = {"1": 1, "True": True, "1.0": 1.0, "0": 0, "False": False, "2023": 2023}
+	sp = {"1": "c1", "True": "true", "1.0": "c1_0", "0": "c0", "False": "false", "2023": "c2023"}
+	for first in spec["order"]:
+		t0 = Table([Vector([9, 9], name=lab[first])])
+		call(lambda: t0[sp[first]])
+		call(dir, t0)
+	labels = spec["labels"]
+	t = Table([Vector([10 * j, 10 * j + 1], name=lab[x]) for j, x in enumerate(labels)])
+	chk.judged("table-missing", ("label-select", tuple(labels), tuple(spec["order"])))
+	for j, x in enumerate(labels):
+		for form in ("str", "row"):      # (the tuple form of selection takes stored names only)
+			o = call(lambda: t[sp[x]] if form == "str" else t[1][sp[x]])
+			if not o.ok:
+				chk.fail("a requested column that exists is found (by the sanitised spelling of its own label)", f"table-select/label-spelling/raises/{form}/{type(o.exc).__name__}", f"{spec!r}: label {lab[x]!r} requested as {sp[x]!r} ({form}) raised {o!r}")
+				return
+			val = o.value if form == "row" else list(o.value._underlying)[1]
+			if val != 10 * j + 1:
+				chk.fail("a requested column that exists is found (by the sanitised spelling of its own label)", f"table-select/label-spelling/wrong-column/{form}", f"{spec!r}: label {lab[x]!r} requested as {sp[x]!r} ({form}) gave the column holding {val!r}")
+				return
+
+
+RUNNERS.update({"none_scalar": run_none_scalar, "label_select": run_label_select, "empty_selection": run_empty_selection, "table_2d": run_table_2d, "rows_held": run_rows_held, "compare_history": run_compare_history, "bigmask": run_bigmask})
 
 
 def run(chk):
@@ -539,6 +586,21 @@ def run(chk):
 				for opname in LOG_OPS:
 					for form in ("vv", "vl", "lv"):
 						chk.case("compare", {"op": "arith", "opname": opname, "form": form, "a": list(a), "b": list(b), "ka": "bool", "kb": "bool-none"}, "compare-logical-none")
+	for kind in ("int", "str", "float", "date", "bool"):
+		for n in (1, 3):
+			for npat in ("none", "first", "low"):
+				for opname in ("eq", "ne"):
+					for form in ("vs", "sv"):
+						chk.case("none_scalar", {"values": common.arith_column(rng, kind, n, npat), "opname": opname, "form": form}, "compare-none-scalar")
+	import itertools as _it
+	for labels in list(_it.permutations(["1", "True", "1.0"], 2)) + list(_it.permutations(["0", "False"], 2)) + [("2023",), ("True",), ("1",)]:
+		for order in ([], [labels[-1]], list(labels), [x for x in ("1", "True", "1.0", "0", "False") if x not in labels][:2]):
+			chk.case("label_select", {"labels": list(labels), "order": order}, "label-select")
+	# byte buffers are scalars in comparisons too
+	for a, b in (([bytearray(b"ab"), bytearray(b"cd")], bytearray(b"ab")), ([b"ab", b"cd"], bytearray(b"cd")), ([bytearray(b"ab"), None], bytearray(b"ab")), ([bytearray(b"x")], bytearray(b"xyz"))):
+		for opname in CMP_OPS:
+			for form in ("vs", "sv"):
+				chk.case("compare", {"op": "arith", "opname": opname, "form": form, "a": a, "b": b, "ka": "bytes", "kb": "bytearray"}, "compare-bytearray")
 	for kind in ("int", "str", "float", "date"):
 		for how in ("mask", "mask-vector", "slice", "slice-inner"):
 			for rename in ("name", "alias", "none"):
